@@ -1879,4 +1879,6 @@ pub fn run(ctx: &Ctx) {
             o => o,
         }
     });
+    // Miri lane (thorough): owned split through the raw-vec path incl. arrays sliced in place
+    miri_lane(ctx, "c02", 1);
 }
